@@ -54,6 +54,7 @@ type Contract struct {
 	Inline   bool
 	Opaque   bool
 	Trusted  bool
+	Recursive bool // `recursive` (with pure): uninterpreted function with its defining equation unfolded once per use
 	Function bool // `function`: results are a deterministic (uninterpreted) function of the arguments
 	Abstract bool
 	NoFrame  bool
@@ -446,7 +447,7 @@ func stripSpecPrefix(line string) (string, bool) {
 
 var clauseKeywords = map[string]bool{"requires": true, "ensures": true, "modifies": true, "loop": true, "inline": true,
 	"opaque": true, "trusted": true, "abstract": true, "func": true, "lemma": true, "pure": true, "assert": true,
-	"bounded": true, "ghost": true, "noframe": true, "allocates": true, "each": true, "usebody": true, "uses": true, "hide": true, "preserves": true, "cases": true, "abstractrem": true, "trustcall": true, "havocs": true, "partial": true, "function": true, "havoccalls": true, "abstractcall": true}
+	"bounded": true, "ghost": true, "noframe": true, "allocates": true, "each": true, "usebody": true, "uses": true, "hide": true, "preserves": true, "cases": true, "abstractrem": true, "trustcall": true, "havocs": true, "partial": true, "function": true, "havoccalls": true, "abstractcall": true, "recursive": true, "override": true, "extend": true, "untrusted": true}
 
 // ParseContracts scans a Go source file for //@ blocks.
 func ParseContracts(fset *token.FileSet, filename string, src []byte, cs *ContractSet) error {
@@ -533,6 +534,32 @@ func ParseContracts(fset *token.FileSet, filename string, src []byte, cs *Contra
 				}
 				return Clause{Expr: e, Src: src, Line: where}, nil
 			}
+			if kw == "override" || kw == "extend" {
+				// override Key(params) (results): replaces a contract for Key declared in an earlier file
+				// of the package; extend Key(...): the following clauses are appended to that contract
+				c, err := parseFuncHeader(rest)
+				if err != nil {
+					return fmt.Errorf("%s: %v", where, err)
+				}
+				prev, have := cs.ByKey[c.Key]
+				if kw == "extend" {
+					if !have {
+						return fmt.Errorf("%s: extend: no earlier contract for %s", where, c.Key)
+					}
+					if len(c.Params) > 0 {
+						prev.Params = c.Params
+					}
+					if len(c.Results) > 0 {
+						prev.Results = c.Results
+					}
+					cur = prev
+					continue
+				}
+				c.Pos = where
+				cs.ByKey[c.Key] = c
+				cur = c
+				continue
+			}
 			if kw == "func" {
 				c, err := parseFuncHeader(rest)
 				if err != nil {
@@ -563,8 +590,12 @@ func ParseContracts(fset *token.FileSet, filename string, src []byte, cs *Contra
 				cur.Opaque = true
 			case "trusted":
 				cur.Trusted = true
+			case "untrusted":
+				cur.Trusted = false
 			case "function":
 				cur.Function = true
+			case "recursive":
+				cur.Recursive = true
 			case "abstract":
 				cur.Abstract = true
 			case "noframe":
